@@ -148,6 +148,30 @@ def build(case):
             _mesh_objs(case["lm_r"], case["pf_r"], case["cf_r"], cr, 0))
 
 
+def cell_flags(case, side, n):
+    """which exposed fields are cell fields (their names carry an annotation appended by MeshFields):
+    MeshFields iterates the point fields first"""
+    if "lm_" + side not in case:
+        return [False] * n
+    npf = len(case["pf_" + side])
+    return [i >= npf for i in range(n)]
+
+
+def annotated_names(obs):
+    """per NAME: annotated iff every exposed field with that name is a cell field"""
+    flags = {}
+    for n, c in list(zip(obs["src"], obs["cell_s"])) + list(zip(obs["ref"], obs["cell_r"])):
+        flags[n] = flags.get(n, True) and c
+    return flags
+
+
+def in_class_F14(obs) -> bool:
+    """class predicate of finding F14 (= not Fc.Spec.plainFixed): some plain source field name is changed by
+    remove_annotation, i.e. contains ' @ '"""
+    ann = annotated_names(obs)
+    return any((not ann[n]) and strip(n) != n for n in obs["src"])
+
+
 def field_names(obj):
     return [f.name for f in obj]
 
@@ -211,6 +235,7 @@ def run_impl(case):
                   and len(suite) == len(entries)
                   and suite.num_passed + suite.num_failed + suite.num_skipped == len(entries))
     return {"src": sn, "ref": rn, "dom": bool(suite.domain_equality_check), "out": out,
+            "cell_s": cell_flags(case, "s", len(sn)), "cell_r": cell_flags(case, "r", len(rn)),
             "verdict": bool(suite), "status_passed": suite.status.name == "passed",
             "entries": sorted(entries),
             "callbacks": [[e[1], e[2]] for e in events if e[0] == "cb"],
@@ -241,6 +266,8 @@ def enc(case, obs) -> str:
     toks += [str(len(uni))] + [str(idx[strip(n)]) for n in uni]
     toks += [str(len(uni))] + ["1" if filt_eval(case["incl"], n) else "0" for n in uni]
     toks += [str(len(uni))] + ["1" if filt_eval(case["excl"], n) else "0" for n in uni]
+    ann = annotated_names(obs)
+    toks += [str(len(uni))] + ["1" if ann.get(n, False) else "0" for n in uni]
     toks += [str(len(obs["src"]))] + [str(idx[n]) for n in obs["src"]]
     toks += [str(len(obs["ref"]))] + [str(idx[n]) for n in obs["ref"]]
     flat = [o for row in obs["out"] for o in row]
@@ -268,14 +295,17 @@ def dec_model(rep, uni):
             "callbacks": [list(c) for c in dec_cmps(cbs, uni)], "selector": dec_pairs(sel)}
 
 
-def dec_spec(rep, uni):
-    v, ents = rep["spec"].split(";")
+def dec_spec(rep, uni, key="spec"):
+    v, ents = rep[key].split(";")
     return {"verdict": v == "1", "entries": sorted(dec_cmps(ents, uni))}
 
 
-def oracle(case, obs):
-    """the property, independently: k-th occurrence pairs with k-th occurrence"""
+def oracle(case, obs, user_level=False):
+    """the property, independently: k-th occurrence pairs with k-th occurrence.  user_level=False: the filters see
+    remove_annotation(name) for every field (what the code does); user_level=True: they see the name itself for
+    plain fields and the name without the appended cell-type annotation for cell fields (what the property means)"""
     sn, rn, out = obs["src"], obs["ref"], obs["out"]
+    ann = annotated_names(obs)
     if not obs["dom"]:
         return {"verdict": False, "entries": None, "compared": []}
     rpos = {}
@@ -291,7 +321,7 @@ def oracle(case, obs):
         if k < len(js):
             j = js[k]
             used.add(j)
-            stripped = strip(n)
+            stripped = strip(n) if (ann[n] or not user_level) else n
             if filt_eval(case["incl"], stripped) and not filt_eval(case["excl"], stripped):
                 st = status_of[out[i][j]]
                 entries.append((n, st))
@@ -401,7 +431,11 @@ def gen_case(rng, meshes):
 def check_case(case, obs, rep):
     """-> list of (kind, impl, expected, what); kind in mismatch / inconsistent / violation"""
     problems = []
-    orc = oracle(case, obs)
+    code_orc = oracle(case, obs)
+    orc = oracle(case, obs, user_level=True)
+    f14 = in_class_F14(obs)
+    # a deviation from the user-level property that is exactly the code-level reading inside the class is F14
+    known = "F14" if (f14 and code_orc != orc) else None
     if rep is not None:
         if "model" not in rep:
             problems.append(("inconsistent", str(rep), "bad-op", "driver rejected the case"))
@@ -422,9 +456,23 @@ def check_case(case, obs, rep):
                 if sp["verdict"] != m["verdict"] or (obs["dom"] and sp["entries"] != m["entries"]):
                     problems.append(("inconsistent", model_view, {"verdict": sp["verdict"], "entries": sp["entries"]},
                                      "Lean model vs Lean spec inside hyp"))
-                if sp["verdict"] != orc["verdict"] or (obs["dom"] and sp["entries"] != orc["entries"]):
-                    problems.append(("inconsistent", {"lean-spec": sp}, {"python-oracle": orc}, "Lean spec vs Python oracle"))
+                if sp["verdict"] != code_orc["verdict"] or (obs["dom"] and sp["entries"] != code_orc["entries"]):
+                    problems.append(("inconsistent", {"lean-spec": sp}, {"python-oracle": code_orc}, "Lean spec vs Python oracle"))
+                usp = dec_spec(rep, uni, "uspec")
+                if usp["verdict"] != orc["verdict"] or (obs["dom"] and usp["entries"] != orc["entries"]):
+                    problems.append(("inconsistent", {"lean-user-spec": usp}, {"python-oracle": orc},
+                                     "Lean user-level spec vs Python user-level oracle"))
+                if rep.get("cls") == "0" and (usp["verdict"] != sp["verdict"] or usp["entries"] != sp["entries"]):
+                    problems.append(("inconsistent", {"spec": sp}, {"uspec": usp},
+                                     "C11_filter_names_partial: specs differ outside class F14"))
+            if rep.get("cls") != ("1" if f14 else "0"):
+                problems.append(("inconsistent", {"lean-cls": rep.get("cls")}, {"python-cls": f14}, "class predicate F14 Lean vs Python"))
     # search: implementation vs the property
+    if known and obs["verdict"] == code_orc["verdict"] and (not obs["dom"] or obs["entries"] == code_orc["entries"]):
+        problems.append(("violation", {"verdict": obs["verdict"], "entries": [list(e) for e in obs["entries"]]},
+                         {"verdict": orc["verdict"], "entries": [list(e) for e in (orc["entries"] or [])]},
+                         "F14: a plain field name containing ' @ ' is filtered by its prefix", "F14"))
+        orc = code_orc      # everything else is judged against the code-level reading
     if obs["verdict"] != orc["verdict"]:
         problems.append(("violation", obs["verdict"], orc["verdict"], "verdict differs from the property"))
     if obs["status_passed"] != obs["verdict"]:
@@ -483,11 +531,17 @@ def evaluate(ctx, cases):
                          "lean": rep})
         if rep is not None and rep.get("hyp") == "1":
             ctx.dist["inside-hyp"] += 1
-        for kind, a, b, what in check_case(c, o, rep):
+        for prob in check_case(c, o, rep):
+            kind, a, b, what = prob[:4]
+            cls = prob[4] if len(prob) > 4 else None
             if kind == "mismatch":
                 ctx.mismatch(c, a, b, what)
             elif kind == "inconsistent":
                 ctx.inconsistent(c, a, b)
+            elif cls is not None:
+                ctx.dist["class-" + cls] += 1
+                if ctx.dist["class-" + cls] <= 100:      # keep the bookkeeping small; every hit is counted in dist
+                    ctx.violation(_small(c), a, b, cls=cls, what=what)
             else:
                 ctx.violation(c, a, b, cls=None, what=what)
 
@@ -508,7 +562,7 @@ def fails(case) -> bool:
         return False
     if "raised" in o:
         return True
-    return any(k == "violation" for k, *_ in check_case(case, o, None))
+    return any(p[0] == "violation" and len(p) == 4 for p in check_case(case, o, None))
 
 
 def shrink(case):
@@ -633,16 +687,25 @@ def run(ctx):
                      "order x all selection subsets x one deviating common field (fail/raise) at every position")
     ctx.notes.append("with duplicate names inside one collection the implementation reports one entry per field object "
                      "(count = max of the two multiplicities); 'each name once' is claimed for pairwise distinct names")
+    unlisted = [v for v in ctx.spec_viol if v.get("class") is None][:20]
+    listed = [v for v in ctx.spec_viol if v.get("class") is not None]
     ctx.spec_viol = [dict(v, case=shrink(v["case"]) if isinstance(v["case"], dict) and "kind" in v["case"] else v["case"])
-                     for v in ctx.spec_viol[:20]]
+                     for v in unlisted] + listed
+    if ctx.dist.get("class-F14"):
+        ctx.notes.append(f"finding F14 (plain field name containing ' @ ' is filtered by its prefix): "
+                         f"{ctx.dist['class-F14']} generated cases fall into the class and show the deviation")
 
 
 def replay_witness(ctx, entry):
     c = entry["witness"]
+    if "fn" in c:
+        from fcv import core
+        return core.run_named_witness(entry)
     o = run_impl(c)
     if "raised" in o:
         return True, {"impl": o["raised"]}
-    probs = [p for p in check_case(c, o, None) if p[0] == "violation"]
+    probs = [p for p in check_case(c, o, None) if p[0] == "violation"
+             and (len(p) == 4 or p[4] == entry.get("class"))]
     return bool(probs), {"impl": {k: o[k] for k in ("verdict", "entries", "callbacks")}, "problems": [p[3] for p in probs]}
 
 
@@ -666,9 +729,16 @@ def replay(ctx, payload):
     print(f"replay: property verdict={orc['verdict']} entries={orc['entries']} compared={orc['compared']}")
     if rep is not None:
         print(f"replay: lean {rep}")
-    if probs:
-        for p in probs:
+    from fcv import core
+    known = {e["class"] for e in core.load_findings("C11") if e["status"] == "known"}
+    bad = []
+    for p in probs:
+        if len(p) > 4 and p[4] in known:
+            print(f"replay: KNOWN-FINDING class {p[4]}: {p[3]}")
+        else:
             print(f"replay: {p[0]}: {p[3]}")
+            bad.append(p)
+    if bad:
         print(f"VIOLATION property=C11 replay={payload.get('_path', '<replay>')}")
         return 1
     return 0
